@@ -96,6 +96,7 @@ def main():
     drivers = spec['drivers'] if 'drivers' in spec else [spec]
     agg = dict(stat={}, mx={}, outcomes={}, samples=[], inexh=[], executed=0, nontrivial=0, distinct=0, skipped=0, enumerated=0, saturated=0)
     viols = []  # (drv, exe, variant, sig, case, detail)
+    deferred = []  # harness errors of single shards: reported after the violations other shards (or earlier cases) found
     drv_args = {}
     for d in drivers:
         drv, variant = d['driver'], d.get('variant', 'asan')
@@ -157,7 +158,7 @@ def main():
                 elif line.startswith('INEXHAUSTIVE '):
                     agg['inexh'].append(line[13:])
                 elif line.startswith('HARNESS_ERROR'):
-                    harness_error('%s shard %d: %s' % (drv, s, line))
+                    deferred.append('%s shard %d: %s' % (drv, s, line))
                 elif line.startswith('CASES '):
                     kv = dict(t.split('=') for t in line.split()[1:])
                     agg['executed'] += int(kv['executed']); agg['nontrivial'] += int(kv['nontrivial'])
@@ -165,8 +166,8 @@ def main():
                     agg['enumerated'] = max(agg['enumerated'], int(kv['enumerated'])); agg['saturated'] |= int(kv['dset_saturated'])
                 elif line == 'DONE':
                     done = True
-            if not done or p.returncode not in (0, 1):
-                harness_error('%s shard %d ended without a report (rc=%d); see %s' % (drv, s, p.returncode, logpath))
+            if (not done or p.returncode not in (0, 1)) and not any(x.startswith('%s shard %d:' % (drv, s)) for x in deferred):
+                deferred.append('%s shard %d ended without a report (rc=%d); see %s' % (drv, s, p.returncode, logpath))
 
     # ---- classify violations
     known = load_known()
@@ -208,6 +209,13 @@ def main():
         rc = 1
     if len(new) > reported:
         print('... %d further violations (replay files in %s)' % (len(new) - reported, replay_dir))
+
+    # ---- harness errors of shards: with a confirmed violation at hand the violation is the result; otherwise nothing is believed
+    if deferred:
+        if rc == 0:
+            harness_error(deferred[0])
+        for m in deferred[:3]:
+            print('NOTE part of the enumeration did not run on this tree: %s' % m[:300])
 
     # ---- vacuity guards (only meaningful when the run found nothing: a violating tree may well lack an expected outcome)
     for need in (spec.get('require_outcomes', []) if not new else []):
